@@ -7,6 +7,11 @@ pub mod parser;
 #[cfg(feature = "serde")]
 mod serde;
 pub mod subtags;
+#[cfg(unic_locale_verif)]
+#[doc(hidden)]
+pub mod verif_tables {
+    pub use crate::layout_table::*;
+}
 
 pub use crate::errors::LanguageIdentifierError;
 use std::fmt::Write;
